@@ -327,6 +327,54 @@ func main() {
 		rep.Sample(brief(normDigest(items[0].tree.Digest())))
 		rep.Sample(brief(normDigest(items[len(items)/2].tree.Digest())))
 	}
+	// ---- a copy is the same message: after the lowest message has been expunged (sequence numbers and UIDs no longer
+	// coincide), COPY by sequence number and UID COPY put into another mailbox what FETCH of that number / UID returns ----
+	if o.Replay == "" {
+		for _, u := range users[:2] {
+			c := clients[u]
+			c.Cmd("SELECT INBOX")
+			c.Cmd(`STORE 1 +FLAGS.SILENT (\Deleted)`)
+			c.Cmd("EXPUNGE")
+			c.Cmd("CREATE Keep")
+			count := 0
+			for _, l := range c.Cmd("STATUS INBOX (MESSAGES)").Untagged {
+				if m := regexp.MustCompile(`MESSAGES (\d+)`).FindStringSubmatch(l); m != nil {
+					fmt.Sscan(m[1], &count)
+				}
+			}
+			kept := 0
+			for _, n := range []int{1, 2, count/2 + 1, count} {
+				if n < 1 || n > count {
+					continue
+				}
+				for _, verb := range []string{"COPY", "UID COPY"} {
+					rep.Case(fmt.Sprintf("copy|%s|%s|%d", u, verb, n), true)
+					fetch, arg := "FETCH", fmt.Sprint(n)
+					if verb == "UID COPY" {
+						fetch = "UID FETCH"
+						for _, l := range c.Cmd(fmt.Sprintf("FETCH %d (UID)", n)).Untagged {
+							if m := regexp.MustCompile(`UID (\d+)`).FindStringSubmatch(l); m != nil {
+								arg = m[1]
+							}
+						}
+					}
+					a, ok1 := lit(c.Cmd(fmt.Sprintf("%s %s BODY.PEEK[]", fetch, arg)))
+					if r := c.Cmd(fmt.Sprintf("%s %s Keep", verb, arg)); !r.OK() {
+						rep.Violate("impl-violation", "copy (Props.C02: a stored message is returned as the same message)", fmt.Sprintf("user %s: %s %s Keep answered %q", u, verb, arg, r.Tagged), []string{"copy " + u})
+						continue
+					}
+					kept++
+					c2 := second[u]
+					c2.Cmd("EXAMINE Keep")
+					b, ok2 := lit(c2.Cmd(fmt.Sprintf("FETCH %d BODY.PEEK[]", kept)))
+					if !ok1 || !ok2 || a != b {
+						rep.Violate("impl-violation", "copy (Props.C02: a stored message is returned as the same message)", fmt.Sprintf("user %s: %s %s Keep answered OK; the message in INBOX begins %q (%d octets), message %d of Keep begins %q (%d octets)", u, verb, arg, clip(a, 90), len(a), kept, clip(b, 90), len(b)), []string{"copy " + u})
+					}
+					rep.Hit("copy:same-octets")
+				}
+			}
+		}
+	}
 	rep.Finish()
 }
 
